@@ -1101,6 +1101,8 @@ class Interp:
         return d
 
     def e_JoinedStr(self, node, frame):
+        from .sstr import Hole, SStr
+
         parts = []
         for v in node.values:
             if isinstance(v, ast.Constant):
@@ -1109,6 +1111,9 @@ class Interp:
                 val = self.eval(v.value, frame)
                 if v.conversion not in (-1, 115, 114):
                     raise OutsideSubset("f-string conversion")
+                if isinstance(val, SStr):
+                    parts.append(val)
+                    continue
                 if has_sym(val):
                     h = getattr(self, "symstr_format", None)
                     if h is None:
@@ -1121,10 +1126,11 @@ class Interp:
                 elif v.conversion == 114:
                     parts.append(repr(val))
                 else:
-                    parts.append(self.call(str, [val], {}))
+                    r = self.call(str, [val], {})
+                    parts.append(r)
         if all(isinstance(p, str) for p in parts):
             return "".join(parts)
-        return self.symstr_concat(parts)
+        return SStr(parts)
 
     def symstr_concat(self, parts):
         raise OutsideSubset("symbolic string concatenation")
@@ -1177,6 +1183,16 @@ class Interp:
         return self.binop(type(node.op), self.eval(node.left, frame), self.eval(node.right, frame))
 
     def binop(self, op, a, b, inplace=False):
+        from .sstr import SStr
+
+        if op is ast.Add and (isinstance(a, SStr) or isinstance(b, SStr)):
+            def conv(x):
+                if isinstance(x, (SStr, str)):
+                    return x
+                if isinstance(x, Sym) and x.ty is TStr:
+                    return self.symstr_format(x, None)
+                raise OutsideSubset("concatenation of a structured string with a non-string")
+            return SStr([conv(a), conv(b)])
         if not is_sym(a) and not is_sym(b):
             # concrete containers (possibly holding symbolic members) or plain values
             if isinstance(a, (set, frozenset)) and has_sym(a) or isinstance(b, (set, frozenset)) and has_sym(b):
